@@ -5,6 +5,7 @@ PROPERTIES = {
     "C15": [("chain", 1.0, 400)],
     "C01": [("ec", 1.0, 8)],
     "C02": [("ec", 1.0, 8)],
+    "C09": [("hd", 1.0, 20)],
 }
 
 # wall seconds of search per property (shrinking and evidence writing come on top)
